@@ -158,17 +158,47 @@ Theorem C13_refuted_replace_pinned :
   val s = 12%N /\ option_map (fun b => fold_log N (N * N) s_apply 0%N (log b)) (cbs s 0) = Some 8%N.
 Proof. exact refuted_replace_pinned_run. Qed.
 
-(* Finding reactive-set-decode-silent (code unchanged): Set.Decode (set_impl.go:108) inserts the decoded elements under
-   the value mutex without the write path.  On a set that has a subscriber the property is false: {0,1}, one subscriber,
-   Decode of the encoding of {1,2} - contents {0,1,2}, no call in progress, the subscriber's fold is {0,1}.
-   The theorems above are about schedules of Apply/Compute/Replace/OnUpdate/unsubscribe, i.e. under the guard
-   "Decode is only used on a set nobody has subscribed to". *)
-Theorem C13_refuted_set_decode_live :
+(* Schedules over every exported mutator of the Set ([scall]: Apply incl. Add/AddAll/Delete/DeleteAll, Compute, Replace
+   and Decode, which since fix a05beeb is AddAll of the decoded elements): Decode on a live set is an ordinary writer
+   and the log theorems hold for histories that contain it (no guard about Decode is needed any more). *)
+Theorem C13_set_api_log_shape : forall s0 (sch : list (nat * option (op scall))) c b,
+  let s := s_run (sapi_sch sch) (init N (N * N) sop (N * N) s0) in
+  cbs s c = Some b ->
+  log b = initpart N (N * N) s_initD b ++ firstn (ndel b) (skipn (regat b) (hist s))
+  /\ regat b + ndel b <= length (hist s)
+  /\ initv b = fold_left s_apply (firstn (regat b) (hist s)) s0
+  /\ val s = fold_left s_apply (hist s) s0
+  /\ (returned b = true -> gotinit b = false -> initv b = 0%N).
+Proof. exact set_api_log_shape. Qed.
+
+Theorem C13_set_api_fold : forall s0 (sch : list (nat * option (op scall))) c b,
+  let s := s_run (sapi_sch sch) (init N (N * N) sop (N * N) s0) in
+  quiescent _ _ _ _ s -> cbs s c = Some b -> unsubd b = false ->
+  returned b = true /\ regat b + ndel b = length (hist s)
+  /\ log b = initpart N (N * N) s_initD b ++ skipn (regat b) (hist s)
+  /\ fold_log N (N * N) s_apply 0%N (log b) = val s.
+Proof. exact set_api_fold. Qed.
+
+Theorem C13_set_api_true_diff : forall s0 (sch : list (nat * option (op scall))),
+  chain N (N * N) s_apply s_legal_p s0 (hist (s_run (sapi_sch sch) (init N (N * N) sop (N * N) s0))).
+Proof. exact set_api_true_diff. Qed.
+
+(* Non-vacuity / regression: {0,1}, a subscriber, then Decode of the encoding of {1,2} by another thread. *)
+Example C13_regression_decode_fixed :
+  let s := s_run (sapi_sch decode_fixed_schedule) (init N (N * N) sop (N * N) 3%N) in
+  thr s 0 = Idle /\ thr s 1 = Idle /\ val s = 7%N /\ hist s = [(4, 0)]%N
+  /\ option_map (fun b => (log b, fold_log N (N * N) s_apply 0%N (log b), unsubd b)) (cbs s 0) = Some ([(3, 0); (4, 0)]%N, 7%N, false).
+Proof. exact decode_fixed_run. Qed.
+
+(* The pinned Set.Decode (before fix a05beeb) inserted the decoded elements under the value mutex without the write
+   path ([decode_step_pinned]).  On a set that has a subscriber the property was false: {0,1}, one subscriber, Decode
+   of the encoding of {1,2} - contents {0,1,2}, no call in progress, the subscriber's fold is {0,1}. *)
+Theorem C13_refuted_set_decode_pinned :
   let s := s_run decode_live_schedule (init N (N * N) sop (N * N) 3%N) in
-  exists s', decode_step s 6%N = Some s'
+  exists s', decode_step_pinned s 6%N = Some s'
     /\ (forall t, t < 4 -> thr s' t = Idle) /\ val s' = 7%N
     /\ option_map (fun b => (fold_log N (N * N) s_apply 0%N (log b), unsubd b, returned b)) (cbs s' 0) = Some (3%N, false, true).
-Proof. exact refuted_set_decode_live. Qed.
+Proof. exact refuted_set_decode_pinned. Qed.
 
 (* Non-vacuity: an interleaved run (registration racing with a Replace, a later Apply, an unsubscribe) reaches a
    quiescent state with non-trivial logs; the same schedule after the fix folds to the contents. *)
@@ -210,4 +240,7 @@ Print Assumptions C13_set_true_diff.
 Print Assumptions C13_set_serial_callbacks.
 Print Assumptions C13_set_after_unsub.
 Print Assumptions C13_refuted_replace_pinned.
-Print Assumptions C13_refuted_set_decode_live.
+Print Assumptions C13_refuted_set_decode_pinned.
+Print Assumptions C13_set_api_log_shape.
+Print Assumptions C13_set_api_fold.
+Print Assumptions C13_set_api_true_diff.
